@@ -271,6 +271,9 @@ def client_forgery_case(exe, it, run, stats):
         sim.cmd("send 0 0 type=0 code=1 token=%s opts=6=,11=6f" % tok)
         sim.run(until=sim.elapsed() + 200, quiesce=False)
         client_addr = [e["local"] for e in sim.log if e["e"] == "sess" and e.get("ok")][0]
+        reg_wire = [e["b"] for e in sim.log if e["e"] == "wire" and e["from"] == client_addr and
+                    len(e["b"]) > 16]
+        reg_wire = reg_wire[0] if reg_wire else None
         delivered = []
         forged = 0
         steps = r.choice([3, 6, 10])
@@ -284,6 +287,32 @@ def client_forgery_case(exe, it, run, stats):
             genuine = [e for e in sim.log[mark:] if e["e"] == "wire" and e["from"] == SERVER and
                        e["to"] == client_addr]
             if not genuine or r.random() < 0.3:
+                continue
+            if reg_wire and r.random() < 0.4:
+                # the other target: a forged REQUEST at the server, from the client's (spoofed)
+                # address, with the observation's token and the client's kid - both readable
+                # off the wire -, another Partial IV and junk ciphertext.  It is rejected; the
+                # observation it names must go on working
+                try:
+                    outer = cw.decode(bytes.fromhex(reg_wire), "udp")
+                    ov = [v for n, v in outer["options"] if n == 9][0]
+                    pl = ov[0] & 7
+                    fp = r.choice([b"\x7f\xff", b"\x01", (int.from_bytes(ov[1:1 + pl] or b"\0",
+                                                                          "big") + 9).to_bytes(
+                        5, "big").lstrip(b"\0") or b"\0"])
+                    opts = [(n, (bytes([(ov[0] & 0xF8) | len(fp)]) + fp + ov[1 + pl:]) if n == 9
+                             else v) for n, v in outer["options"]]
+                    f = cw.msg(outer["code"], type=1, mid=r.getrandbits(16), token=outer["token"],
+                               options=opts, payload=bytes(r.getrandbits(8) for _ in range(
+                                   r.choice([9, 15, len(outer["payload"])]))))
+                    sim.inject(client_addr, SERVER, cw.encode(f, "udp"))
+                    sim.run(until=sim.elapsed() + 50, quiesce=False)
+                    forged += 1
+                    stats["client_forgeries"] = stats.get("client_forgeries", 0) + 1
+                    stats["forged_requests_naming_an_observation"] = \
+                        stats.get("forged_requests_naming_an_observation", 0) + 1
+                except Exception:
+                    pass
                 continue
             # forge from the last genuine notification on the wire
             try:
